@@ -81,7 +81,9 @@ func armEffect(arm *ssa.BasicBlock, from *ssa.BasicBlock) (string, token.Pos) {
 			case *ssa.Phi:
 				for i, p := range b.Preds {
 					if p == prev {
-						return "phi " + Term(v.Edges[i]), v.Pos()
+						// render the edge with the phi itself written ↺
+						tt := &termer{phis: map[*ssa.Phi]bool{v: true}}
+						return "phi " + tt.val(v.Edges[i]), v.Pos()
 					}
 				}
 			}
